@@ -1,3 +1,4 @@
+
  /******************************************************************************
  *    This program is free software: you can redistribute it and/or modify     *
  *   it under the terms of the GNU General Public License as published by      *
@@ -15,16 +16,26 @@
  *   Authors:                                                                  *
  *      Carlos Arguelles (University of Wisconsin Madison)                     * 
  *         carguelles@icecube.wisc.edu                                         *
+ *      Christopher Weaver (University of Wisconsin Madison)                   * 
+ *         chris.weaver@icecube.wisc.edu                                       *
  *      Jordi Salvado (University of Wisconsin Madison)                        *
  *         jsalvado@icecube.wisc.edu                                           *
- *      Christopher Weaver (University of Wisconsin Madison)                   * 
- *         cweaver@icecube.wisc.edu                                            *
  ******************************************************************************/
-alpha=2*suv1.components[3];
-if(alpha*range!=0){
-SX[0]=(cos(alpha*t_start) - cos(alpha*t_end))/(alpha*range);
-CX[0]=(sin(alpha*t_end) - sin(alpha*t_start))/(alpha*range);
-}else{ //coincident levels: the averages of sin(0) and cos(0)
-SX[0]=0;
-CX[0]=1;
-}
+
+///\file
+///Library version number constants
+
+#ifndef SQUIDS_VERSION_HPP
+#define SQUIDS_VERSION_HPP
+
+///\brief Machine readable version number
+///
+/// SQUIDS_VERSION / 100000 is the major version \n
+/// SQUIDS_VERSION / 100 % 1000 is the minor version \n
+/// SQUIDS_VERSION % 100 is the patch level
+#define SQUIDS_VERSION 100300
+
+///\brief Human readable version number
+#define SQUIDS_VERSION_STR "1.3.0"
+
+#endif //SQUIDS_VERSION_HPP
